@@ -20,6 +20,7 @@ Lemma keywords_not_illegal : Forall (fun p => snd p <> IKIllegal) keywords.
 Proof. unfold keywords. repeat constructor; discriminate. Qed.
 
 Section WithOracle.
+  Context {fx : FxEscape}.
   Variable gbk_runes : list N -> Z.
 
   Lemma scan_token_illegal s t s' es :
